@@ -1,5 +1,6 @@
 import MqttVerif.Proofs.TimerFrame
 import MqttVerif.Proofs.EnvOk
+import MqttVerif.Props.ConfigAddr
 /-
   C19, the mechanism the property is anchored in: "every access goes through [self.addr]".
 
